@@ -411,9 +411,20 @@ def run_after(ctl: explorer.Ctl, cfg: Dict[str, Any]) -> Dict[str, Any]:
 # ---------------------------------------------------------------------------
 def chunk_stream(variant: str) -> bytes:
     nl = "\r\n" if "crlf" in variant else "\n"
+    if variant.startswith("burst"):
+        n = int(variant.rsplit("-", 1)[1])
+        msgs = [{"jsonrpc": "2.0", "method": "notifications/message", "params": {"i": i}} for i in range(n)]
+        msgs.append({"jsonrpc": "2.0", "id": "srv-1", "result": {"after": n}})
+        text = f"event: endpoint{nl}data: /messages/?session_id=abc{nl}{nl}" + "".join(
+            f"event: message{nl}data: {json.dumps(m)}{nl}{nl}" for m in msgs)
+        return text.encode("utf-8"), msgs
     short = "short" in variant
 
+    untyped = "untyped" in variant
+
     def e(name, data):
+        if untyped and name == "message":
+            return f"data: {data}{nl}{nl}"  # no event field: the default type "message" applies
         return f"event: {name}{nl}data: {data}{nl}{nl}"
 
     n1 = {"jsonrpc": "2.0", "method": "n/1", "params": {"t": "é\U0001F600"}} if short else \
@@ -455,8 +466,12 @@ def run_chunks(ctl: explorer.Ctl, cfg: Dict[str, Any]) -> Dict[str, Any]:
                     while chunks:
                         srv.stream.feed(chunks.pop(0))
                         await q.settle()
-                    await q.settle()
-                    got.extend(dump_msg(m) for m in drain(read))
+                    for _ in range(10):
+                        n0 = len(got)
+                        await q.settle()
+                        got.extend(dump_msg(m) for m in drain(read))
+                        if len(got) == n0:
+                            break
             except RuntimeError as e:
                 info["raised"] = str(e)[:80]
 
@@ -636,11 +651,15 @@ def configs_for(tier: str):
         for idk in RIDS:
             req.append({"mode": mode, "id": idk, "rich": mode != "202+event+note" or tier == "thorough"})
     chunks = []
-    for variant in ("long-lf", "long-crlf"):
+    for variant in ("long-lf", "long-crlf", "long-lf-untyped", "long-crlf-untyped"):
         data, _ = chunk_stream(variant)
         chunks.append({"variant": variant, "cuts": []})
         for c in range(1, len(data)):
             chunks.append({"variant": variant, "cuts": [c]})
+    for n in (99, 100, 101, 150):
+        for variant in ("burst-lf", "burst-crlf"):
+            chunks.append({"variant": f"{variant}-{n}", "cuts": []})
+            chunks.append({"variant": f"{variant}-{n}", "cuts": [4096, 8192]})
     for variant in ("short-lf", "short-crlf"):
         data, _ = chunk_stream(variant)
         # pairs: quick = every pair with one cut inside the region after the endpoint event; thorough = all pairs
